@@ -330,7 +330,11 @@ def replay(prop, path):
         return 1
     vlib.build_exec()
     vlib.build_driver()
-    model, impl, crashes = vlib.run_both([op], gens.exec_env(prop), shards=1)
+    meta = r.get("meta", {})
+    model, impl, crashes, verrs = vlib.run_grouped([(op, meta)])
+    for e in verrs:
+        print("executor variant problem:", e[:500])
+    print("variant:", meta.get("cfg", "host"))
     print("op:    ", op[:2000])
     print("model: ", model[0])
     print("impl:  ", impl[0] if not crashes else "CRASH status %s" % crashes[0][1])
